@@ -4,7 +4,7 @@ import Zc.Model.Link
 `c07 <endT> <n> <event>…` with events
 `up t h` · `close t h` · `reg|upd|unreg t o ty i` · `browse t h ty i` · `send t h d dst|- <items>` ·
 `dlv t d src h mc <items>` · `add|rem t bh bty bi so sty si`; `<items>` = `n` then `p o ty i ttl full` | `q ty k (o ty i)ᵏ qu`.
-Answer: `WF=b K1=b … K7=b conv=b lastChange=t state=<browser>.<svc>:<live><held><registered>,…`. -/
+Answer: `WF=b K1=b … K7=b K5a=b K6f=b conv=b lastChange=t state=<browser>.<svc>:<live><held><registered>,…`. -/
 namespace Zc.Driver.C07
 open Zc Zc.Link
 
@@ -62,7 +62,7 @@ def run (endT : Int) (tr : Trace) : String :=
   let st := bs.flatMap fun b => ss.map fun s =>
     s!"{b.idx}.{s.idx}:{b01 (live tr b s)}{b01 (held tr b.host s)}{b01 (registered cfg tr s)}"
   s!"WF={b01 (WF cfg tr endT)} K1={b01 (K1 cfg tr endT)} K2={b01 (K2 cfg tr endT)} K3={b01 (K3 cfg tr endT)} " ++
-  s!"K4={b01 (K4 cfg tr endT)} K5={b01 (K5 tr endT)} K6={b01 (K6 cfg tr)} K7={b01 (K7 cfg tr endT)} conv={b01 conv} " ++
+  s!"K4={b01 (K4 cfg tr endT)} K5={b01 (K5 tr endT)} K6={b01 (K6 cfg tr)} K7={b01 (K7 cfg tr endT)} K5a={b01 (K5added tr)} K6f={b01 (K6full tr)} conv={b01 conv} " ++
   s!"lastChange={lastChange tr} state={if st.isEmpty then "-" else ",".intercalate st}"
 
 def dispatch (cmd : String) (rest : List String) : Option String :=
